@@ -458,3 +458,68 @@ package secp256k1
 //@   invariant wf: eval(m) < N && old(rnd) <= rnd && !rndfail
 //@   invariant st: ite(eval(m) == 0, firstnz(rnd) == firstnz(old(rnd)), fromMn(eval(m)) == nofint(rndblock(rnd - 1)) && rnd - 1 == firstnz(old(rnd)) && old(rnd) < rnd)
 //@   uses firstnz_step(rnd), nofint_mod(rndblock(rnd), rndblock(rnd) - N), glue_zero_n(eval(m))
+
+// ---- map to curve: simplified SWU onto E': y^2 = x^3 + A'x + B' (RFC 9380 F.2, Z = -11) and the 3-isogeny (E.1) ----
+//@ const AC = 0x3f8731abdd661adca08a5558f0f5d272e953d363cb6f0e5d405447c01a444533
+//@ const BC = 1771
+//@ define sgn0(v) = fint(v) % 2
+//@ define sswu_tv1(u) = F(ZC) * (u*u)
+//@ define sswu_tv2(u) = sswu_tv1(u)*sswu_tv1(u) + sswu_tv1(u)
+//@ define sswu_tv3(u) = F(BC) * (sswu_tv2(u) + F(1))
+//@ define sswu_tv4(u) = F(AC) * ite(sswu_tv2(u) == F(0), F(ZC), fneg(sswu_tv2(u)))
+//@ define sswu_gxn(u) = (sswu_tv3(u)*sswu_tv3(u) + F(AC)*(sswu_tv4(u)*sswu_tv4(u))) * sswu_tv3(u) + F(BC)*(sswu_tv4(u)*sswu_tv4(u)*sswu_tv4(u))
+//@ define sswu_gxd(u) = sswu_tv4(u)*sswu_tv4(u)*sswu_tv4(u)
+//@ define sswu_sq(u) = sr_isqr(sswu_gxn(u), sswu_gxd(u))
+//@ define sswu_y1(u) = sr_y(sswu_gxn(u), sswu_gxd(u))
+//@ define sswu_xn(u) = ite(sswu_sq(u), sswu_tv3(u), sswu_tv1(u)*sswu_tv3(u))
+//@ define sswu_y0(u) = ite(sswu_sq(u), sswu_y1(u), sswu_tv1(u)*u*sswu_y1(u))
+//@ define sswu_x(u) = sswu_xn(u) * finv(sswu_tv4(u))
+//@ define sswu_y(u) = ite(sgn0(u) == sgn0(sswu_y0(u)), sswu_y0(u), fneg(sswu_y0(u)))
+//@ define onE3(x, y) = y*y == x*x*x + F(AC)*x + F(BC)
+//@ lemma neg_zero_iff(y) {lean: neg_eq_zero}: (fneg(y) == F(0)) == (y == F(0))
+//@ lemma sswu_on_curve(u) {lean: Secp.sswu_on_curve}: onE3(sswu_x(u), sswu_y0(u))
+
+//@ func SSWU
+//@   mode ring
+//@   requires wf(e)
+//@   ensures wf [C11]: wf3(result)
+//@   ensures x [C11,C08]: fv(result.x) == sswu_x(fv(e))
+//@   ensures y [C11,C08]: fv(result.y) == sswu_y(fv(e))
+//@   ensures z [C11]: fv(result.z) == F(1)
+//@   derives oncurve [C11,C08]: onE3(fv(result.x), fv(result.y)) by sswu_on_curve(fv(e)), fneg_sq(sswu_y0(fv(e)))
+//@   derives sign [C11]: fv(result.y) == F(0) || sgn0(fv(result.y)) == sgn0(fv(e)) by neg_parity(sswu_y0(fv(e))), neg_zero_iff(sswu_y0(fv(e)))
+//@   returns fresh
+
+//@ const K10 = 0x8e38e38e38e38e38e38e38e38e38e38e38e38e38e38e38e38e38e38daaaaa8c7
+//@ const K11 = 0x7d3d4c80bc321d5b9f315cea7fd44c5d595d2fc0bf63b92dfff1044f17c6581
+//@ const K12 = 0x534c328d23f234e6e2a413deca25caece4506144037c40314ecbd0b53d9dd262
+//@ const K13 = 0x8e38e38e38e38e38e38e38e38e38e38e38e38e38e38e38e38e38e38daaaaa88c
+//@ const K20 = 0xd35771193d94918a9ca34ccbb7b640dd86cd409542f8487d9fe6b745781eb49b
+//@ const K21 = 0xedadc6f64383dc1df7c4b2d51b54225406d36b641f5e41bbc52a56612a8c6d14
+//@ const K30 = 0x4bda12f684bda12f684bda12f684bda12f684bda12f684bda12f684b8e38e23c
+//@ const K31 = 0xc75e0c32d5cb7c0fa9d0a54b12a0a6d5647ab046d686da6fdffc90fc201d71a3
+//@ const K32 = 0x29a6194691f91a73715209ef6512e576722830a201be2018a765e85a9ecee931
+//@ const K33 = 0x2f684bda12f684bda12f684bda12f684bda12f684bda12f684bda12f38e38d84
+//@ const K40 = 0xfffffffffffffffffffffffffffffffffffffffffffffffffffffffefffff93b
+//@ const K41 = 0x7a06534bb8bdb49fd5e9e6632722c2989467c1bfc8e8d978dfb425d2685c2573
+//@ const K42 = 0x6484aa716545ca2cf3a70c3fa8fe337e0a3d21162f0d6299a7bf8192bfd2a76f
+//@ define iso_xnum(x) = F(K13)*(x*x*x) + F(K12)*(x*x) + F(K11)*x + F(K10)
+//@ define iso_xden(x) = x*x + F(K21)*x + F(K20)
+//@ define iso_ynum(x) = F(K33)*(x*x*x) + F(K32)*(x*x) + F(K31)*x + F(K30)
+//@ define iso_yden(x) = x*x*x + F(K42)*(x*x) + F(K41)*x + F(K40)
+//@ define iso_id(x) = finv(iso_xden(x)) == F(0) || iso_yden(x) == F(0)
+//@ define iso_x(x) = ite(iso_id(x), F(0), iso_xnum(x) * finv(iso_xden(x)))
+//@ define iso_y(x, y) = ite(iso_id(x), F(1), y * iso_ynum(x) * finv(iso_yden(x)))
+//@ define iso_z(x) = ite(iso_id(x), F(0), F(1))
+//@ lemma iso_valid(x, y) {lean: Secp.iso_on_curve}: imp(onE3(x, y), valid(iso_x(x), iso_y(x, y), iso_z(x)))
+
+//@ func IsogenySecp256k13iso
+//@   mode ring
+//@   requires wf3(e)
+//@   ensures wf [C11]: wf3(e)
+//@   ensures x [C11,C08]: fv(e.x) == iso_x(old(fv(e.x)))
+//@   ensures y [C11,C08]: fv(e.y) == iso_y(old(fv(e.x)), old(fv(e.y)))
+//@   ensures z [C11,C08]: fv(e.z) == iso_z(old(fv(e.x)))
+//@   derives oncurve [C11,C08]: imp(onE3(old(fv(e.x)), old(fv(e.y))), inv(e)) by iso_valid(old(fv(e.x)), old(fv(e.y)))
+//@   modifies *e
+//@   returns e
